@@ -38,6 +38,10 @@ def save(data):
     for e in data["findings"]:
         if not e.get("described"):
             e["what"] = ("%s fails; minimal witness: %s" % (e["signature"], witness_text(e["witness"])))[:420]
+            if "corpus_indices" in e:
+                e["what"] = ("%s fails on corpus/%s.jsonl inputs #%s; first witness: %s"
+                             % (e["signature"], e["property"], ",".join(str(i) for i in e["corpus_indices"]),
+                                witness_text(e["witness"])))[:700]
     data["findings"].sort(key=lambda e: (e["property"], e["signature"]))
     with open(PATH, "w") as f:
         json.dump(data, f, indent=1, ensure_ascii=False)
@@ -54,6 +58,15 @@ def main():
         n = 0
         for sig, e in sweep.items():
             if pats and not any(p in sig for p in pats):
+                continue
+            if "corpus_indices" in e:
+                # frozen-corpus family: the entry lists the exact failing inputs (corpus indices)
+                cur = next((x for x in data["findings"] if x["property"] == prop and x["signature"] == sig), None)
+                if cur is None:
+                    cur = {"property": prop, "signature": sig, "what": "", "witness": e["detail"], "corpus_indices": []}
+                    data["findings"].append(cur)
+                cur["corpus_indices"] = sorted(set(cur["corpus_indices"]) | set(e["corpus_indices"]))
+                n += 1
                 continue
             if (prop, sig) in have:
                 continue
